@@ -179,6 +179,11 @@ Proof.
   apply filter_In in Hi. apply Hi.
 Qed.
 
+Lemma succ_fields x ddt y : succ_of x ddt y ->
+  e_time y = Qred (e_time x + ddt) /\ e_prog y = e_prog x /\ e_elem y = e_elem x /\ e_proc y = e_proc x /\
+  e_rep y = Some ddt /\ e_live y = true.
+Proof. intros ->. cbn [e_time e_prog e_elem e_proc e_rep e_live mk_entry]. auto 6. Qed.
+
 Section RunPending.
 Context {W : Type}.
 Implicit Types s : st W.
@@ -249,9 +254,10 @@ Proof.
     { assert (0 <= inject_Z (Z.of_nat k)) by (change 0 with (inject_Z 0); rewrite <- Zle_Qle; lia). nra. }
     destruct (IH Hk') as [y [Hy [Ty [P1 [P2 [P3 P4]]]]]].
     destruct (run_pendingL_rep_step tb fuel t n s n' s' l y ddt Hw H Hy P4 Hd) as [z [Sz Cz]].
+    destruct (succ_fields _ _ _ Sz) as [F1 [F2 [F3 [F4 [F5 F6]]]]].
     assert (Tz : e_time z == e_time x + inject_Z (Z.of_nat (S k)) * ddt).
-    { rewrite Sz. cbn. rewrite Qred_correct, Ty, inj_nat_S. ring. }
-    exists z. split; [|split; [exact Tz|rewrite Sz; cbn; auto]].
+    { rewrite F1, Qred_correct, Ty, inj_nat_S. ring. }
+    exists z. split; [|split; [exact Tz|repeat split; congruence]].
     destruct Cz as [C|[C|C]]; [exact C| |exfalso; eapply Hnu; exact C].
     exfalso. pose proof (run_pendingL_not_stuck tb fuel t n s n' s' l H Hs z C (succ_live _ _ _ Sz)) as Hlt.
     rewrite Tz, inj_nat_S in Hlt. lra.
@@ -286,6 +292,20 @@ Lemma ginv_rep_rev s lg x ddt : ginv_st s lg -> In x lg -> e_rep x = Some ddt ->
 Proof.
   intros G Hx Hr Hd. destruct (g_rep _ _ _ _ _ G x ddt Hx Hr Hd) as [y [A [B|[B|B]]]]; exists y; (split; [exact A|]); auto.
   right. right. apply in_rev. rewrite rev_involutive. exact B.
+Qed.
+
+Lemma ginv_posted_fired s lg i tt x : ginv_st s lg ->
+  In (OPosted i tt) (rev (out s)) -> In x lg -> e_id x = i ->
+  e_time x = tt /\ In (OHandler (e_prog x) tt tt (e_elem x) None) (rev (out s)).
+Proof.
+  intros G Hp Hx Hi. pose proof (ph_rev _ _ (g_hrec _ _ _ _ _ G)) as Hph.
+  destruct (ginv_posted_rev _ _ i tt G Hp) as [y [A [B [C D]]]].
+  assert (E : y = x).
+  { destruct D as [D|[D|D]].
+    - apply (NoDup_id_inj lg _ _ (g_nodup _ _ _ _ _ G)); [exact D|exact Hx|congruence].
+    - exfalso. apply (proj2 (ginv_unposted_rev _ _ i tt G D)). rewrite <- Hi. apply in_map, Hx.
+    - exfalso. apply (proj1 (proj2 (g_fired _ _ _ _ _ G x Hx))). rewrite Hi, <- A. apply in_map, D. }
+  subst y. split; [exact B|]. rewrite <- B. exact (hrec_in_out _ _ x Hph Hx).
 Qed.
 
 End Posted.
